@@ -138,6 +138,9 @@ def check(ctx):
         if not s.sibling and s.F is not None:
             pass
     rule_no_hidden_state(ctx, F, extra, "R1")
+    # a property that has data gets a non-empty sub-timeline, so that update always writes it and the result never
+    # depends on what the target held before (splitter, C01/R1)
+    c01.rule_split(ctx, F, "R5")
     n = 0
     for s in shapes:
         if s.sibling:
